@@ -9,7 +9,11 @@ run_impl under this shim, which (only at the outermost call level, never recursi
 
   * renders the receiver with the default conventions before every chaining (@builder) call on a statement builder
     ("log the statement, then go on building it"), and
-  * renders every statement first under foreign conventions (back-tick identifiers, double-quoted strings, AS keyword) and
+  * builds and renders, before every such call, a decoy: another statement of the receiver's class over the receiver's
+    FROM tables, built in place (immutable=False) with a star per table, an aliased column, WHERE / GROUP BY / ORDER BY /
+    LIMIT / OFFSET (state that the class or the module shares between instances - a class-level container written in
+    place - is polluted by the decoy and shows in the statement under test),
+  * renders every statement first with a private parameter collector ("prepare, then log") and under foreign conventions (back-tick identifiers, double-quoted strings, AS keyword) and
     then once more under the very conventions that were asked for, before the rendering that is returned.
 
 For a case whose "_pre" key is 2 (a fixed share of the perturbed cases, VERIF_PURITY_CLONE_SHARE) the rendering that is
@@ -41,7 +45,7 @@ OPT_OUT = {
     "C20": "counts get_sql calls on sentinel elements (every element rendered once)",
 }
 
-_ST = {"on": False, "depth": 0, "patched": False, "pre": 0, "mid": 0, "clone": False, "cloned": 0, "clone_failed": 0, "flip": 0}
+_ST = {"on": False, "depth": 0, "patched": False, "pre": 0, "mid": 0, "clone": False, "cloned": 0, "clone_failed": 0, "flip": 0, "decoys": 0}
 
 
 def _clone(obj):
@@ -87,6 +91,11 @@ def _wrap_get_sql(orig):
                 orig(self, *a, **dict({k: v for k, v in kw.items() if k != "parameter"}, **FOREIGN))
             except Exception:   # noqa
                 pass
+            try:      # "prepare the statement, then log its text": a collector's rendering first, with a private collector
+                from pypika.terms import QmarkParameter
+                orig(self, *a, **dict({k: v for k, v in kw.items() if k != "parameter"}, parameter=QmarkParameter()))
+            except Exception:   # noqa
+                pass
             if "parameter" not in kw:     # a collector would receive the values twice
                 try:
                     orig(self, *a, **kw)
@@ -99,6 +108,24 @@ def _wrap_get_sql(orig):
     return get_sql
 
 
+def _decoy(b):
+    """an unrelated statement of the same class over the same tables, built in place (immutable=False: no copy is made, so
+    whatever the calls write lands on the decoy itself - or on state the class shares) and rendered"""
+    from pypika.queries import Table
+    tabs = [t for t in list(getattr(b, "_from", []) or []) if isinstance(t, Table)]
+    if not tabs:
+        return
+    d = type(b)(immutable=False)
+    for t in tabs:
+        d.from_(t)
+    for t in tabs:
+        d.select(t.star)
+    d.select(tabs[0].decoy_col.as_("decoy_alias"))
+    d.where(tabs[0].decoy_col == "decoy'value").groupby(tabs[0].decoy_col).orderby(tabs[0].decoy_col).limit(7).offset(3)
+    d.get_sql(**FOREIGN)
+    _ST["decoys"] += 1
+
+
 def _wrap_builder(orig):
     def call(self, *a, **kw):
         if _ST["on"] and _ST["depth"] == 0:
@@ -106,6 +133,10 @@ def _wrap_builder(orig):
             try:
                 _ST["mid"] += 1
                 str(self)
+            except Exception:   # noqa
+                pass
+            try:
+                _decoy(self)
             except Exception:   # noqa
                 pass
             finally:
@@ -147,4 +178,4 @@ def perturbed(on=True):
 
 def counters():
     return {"pre_renderings": _ST["pre"], "intermediate_renderings": _ST["mid"], "clones": _ST["cloned"],
-            "clones_not_possible": _ST["clone_failed"]}
+            "clones_not_possible": _ST["clone_failed"], "decoy_statements": _ST["decoys"]}
